@@ -6,7 +6,7 @@ func init() {
 		gen:    func(seed uint64, th bool) *Plan { return genFramePlan(seed, th) },
 		chk:    newFrameChecker,
 		runner: runFrameTwin,
-		rule:   "twin runs of one plan: 1-3 pipelined connections (depth 1-8) on disjoint key spaces send 1-40 commands of all families with binary arguments (empty, CR, LF, CRLF, NUL, non-UTF-8, RESP look-alikes, values around 8 KiB and above 64 KiB, unknown commands and error-provoking arguments containing CRLF); once as whole commands with depth 1, once cut into tape-chosen fragments (incl. 1-byte pieces), coalesced into shared segments, with short reads and clock jumps; class all-offsets cuts one frame at every byte offset; oracles: every reply parses as exactly one RESP value in order with nothing left over, replies equal the per-connection reference model (binary read-back), and the reply bytes of the two runs are identical; non-trivial = at least one request was reassembled from several reads or shared a segment with another; distinct = distinct scheduler event sequence",
+		rule:   "twin runs of one plan: 1-3 pipelined connections (depth 1-8) on disjoint key spaces send 1-40 commands of all families with binary arguments (empty, CR, LF, CRLF, NUL, non-UTF-8, RESP look-alikes, values around 8 KiB and above 64 KiB, unknown commands and error-provoking arguments containing CRLF); once as whole commands with depth 1, once cut into tape-chosen fragments (incl. 1-byte pieces), coalesced into shared segments, with short reads and clock jumps; class all-offsets cuts one frame at every byte offset; oracles: every reply parses as exactly one RESP value in order with nothing left over, replies equal the per-connection reference model (binary read-back), and the reply bytes of the two runs are identical; non-trivial = at least one request was reassembled from several reads or shared a segment with another; distinct = distinct scheduler event sequence; a client that has delivered a complete command plus the start of the next may keep the rest back until every completely delivered command is answered (fault held-until-reply: the reply to a complete command must not wait for more input); 1 in 3 connections sends one request of exactly 1024..65536 bytes in one piece with nothing outstanding before and nothing sent after it until its reply is there",
 		nontrivial: func(res *RunResult) bool {
 			return res.Extra["reassembled"] >= 1
 		},
@@ -25,7 +25,7 @@ func init() {
 		id:   "C13",
 		gen:  func(seed uint64, th bool) *Plan { return genHostilePlan(seed, th) },
 		chk:  newHostileChecker,
-		rule: "1-2 attacker connections and 1-2 well-behaved victim connections (own key prefix, refined against the model) run concurrently; attackers send either raw hostile bytes (blank lines, bare CR/LF, every RESP3 type as top-level value or argument, aggregates as map keys/set members, declared lengths -2^63, -5, 2^48, 2^63-1 for every length-carrying type, streamed aggregates, truncated frames followed by close, byte-level mutations of valid frames) or well-formed commands (every command name x 0-6 arguments from pools of extreme integers/floats, keywords and keys of every type, plus targeted shapes: offsets/counts/ranges at +-2^63 and 2^62, BITFIELD types, RESTORE payloads, COMMAND GETKEYS with disagreeing numkeys, SCAN cursors/counts); oracles: no emulator goroutine panics and the worker process survives, every well-formed non-blocking command is answered exactly once, the victims' replies equal the model and arrive; non-trivial = hostile well-formed commands were answered or garbage reached the parser while a victim was being served; distinct = distinct scheduler event sequence",
+		rule: "1-2 attacker connections and 1-2 well-behaved victim connections (own key prefix, refined against the model) run concurrently; attackers send either raw hostile bytes (blank lines, bare CR/LF, every RESP3 type as top-level value or argument, aggregates as map keys/set members, declared lengths -2^63, -5, 2^48, 2^63-1 for every length-carrying type, streamed aggregates, truncated frames followed by close, byte-level mutations of valid frames) or well-formed commands (every command name x 0-6 arguments from pools of extreme integers/floats, keywords and keys of every type, plus targeted shapes: offsets/counts/ranges at +-2^63 and 2^62, BITFIELD types, RESTORE payloads, COMMAND GETKEYS with disagreeing numkeys, SCAN cursors/counts); oracles: no emulator goroutine panics and the worker process survives, every well-formed non-blocking command is answered exactly once, the victims' replies equal the model and arrive; non-trivial = hostile well-formed commands were answered or garbage reached the parser while a victim was being served; distinct = distinct scheduler event sequence; further targeted shapes: HRANDFIELD/SRANDMEMBER/SPOP counts of +-2^31, 2^62, 2^63-1 on keys of the right type, and line breaks in every argument an error message may quote back",
 		nontrivial: func(res *RunResult) bool {
 			return res.Extra["hostile-answered"]+res.Extra["garbage-sent"] >= 1
 		},
@@ -120,7 +120,7 @@ func init() {
 		id:   "C15",
 		gen:  func(seed uint64, th bool) *Plan { return genProtoPlan(seed, th) },
 		chk:  newProtoChecker,
-		rule: "twin connections A (RESP2) and B (RESP3) run the same 10-50 commands of all families on two databases with equal state, taking turns; HELLO (2, 3, unsupported versions, garbage, SETNAME) is issued at tape-chosen positions on A, B or a bystander; oracles: down(RESP3 reply) equals the RESP2 reply (unordered for map/set), a RESP2 connection never receives a RESP3 type, HELLO changes exactly the issuing connection and only when valid; non-trivial = at least one compared reply pair contained a RESP3-only type; distinct = distinct scheduler event sequence",
+		rule: "twin connections A (RESP2) and B (RESP3) run the same 10-50 commands of all families on two databases with equal state, taking turns; HELLO (2, 3, unsupported versions, garbage, SETNAME) is issued at tape-chosen positions on A, B or a bystander; oracles: down(RESP3 reply) equals the RESP2 reply (unordered for map/set), a RESP2 connection never receives a RESP3 type, HELLO changes exactly the issuing connection and only when valid; non-trivial = at least one compared reply pair contained a RESP3-only type; distinct = distinct scheduler event sequence; 1 in 10 positions carries a transaction on both twins with 1-4 commands of typed replies (maps, sets, doubles) and a queued HELLO: the protocol switches when EXEC runs it, so the EXEC reply must be in the protocol the connection speaks by then, and the twins' EXEC replies are compared element by element",
 		nontrivial: func(res *RunResult) bool {
 			return res.Extra["resp3-typed-compared"] >= 1
 		},
@@ -151,7 +151,7 @@ func init() {
 				}
 				return newSeqChecker(p)
 			},
-			rule: "class turns (3 of 5 runs): 1-3 connections run transaction programs (WATCH/UNWATCH, MULTI, queued commands incl. failing, rejected and blocking ones, nested MULTI, WATCH inside MULTI, EXEC/DISCARD with and without MULTI, follow-up commands) taking turns at command granularity as the tape decides; every reply and the stored state are compared with the model's session automaton and per-key modification counters; non-trivial = an EXEC with a non-empty queue was answered and (C10) a watched key was written or expired between WATCH and EXEC; class conc (2 of 5 runs): 2-3 connections run WATCH / MULTI / queued read-modify-write commands / EXEC and plain commands on 2-3 shared keys truly concurrently (every emulator goroutine scheduled from the tape at each lock boundary and store primitive), and the history with EXEC as one operation plus a final read-back is checked for linearizability against the model with porcupine; non-trivial = commands of different connections overlapped, an EXEC was answered and porcupine decided; distinct = distinct scheduler event sequence",
+			rule: "class turns (3 of 5 runs): 1-3 connections run transaction programs (WATCH/UNWATCH, MULTI, queued commands incl. failing, rejected and blocking ones, nested MULTI, WATCH inside MULTI, EXEC/DISCARD with and without MULTI, follow-up commands) taking turns at command granularity as the tape decides; every reply and the stored state are compared with the model's session automaton and per-key modification counters; non-trivial = an EXEC with a non-empty queue was answered and (C10) a watched key was written or expired between WATCH and EXEC; class conc (2 of 5 runs): 2-3 connections run WATCH / MULTI / queued read-modify-write commands / EXEC and plain commands on 2-3 shared keys truly concurrently (every emulator goroutine scheduled from the tape at each lock boundary and store primitive), and the history with EXEC as one operation plus a final read-back is checked for linearizability against the model with porcupine; non-trivial = commands of different connections overlapped, an EXEC was answered and porcupine decided; distinct = distinct scheduler event sequence; in 1 of 4 concurrent runs one connection is killed by another (CLIENT KILL ID) at a tape-chosen point of its program, also in the middle of its EXEC, whose lost reply makes it a pending operation: all of the queue took effect or none; schedules: uniform walk, stall-one-task (Knobs.Stall) and PCT priorities (Knobs.PCT)",
 			nontrivial: func(res *RunResult) bool {
 				if res.Plan != nil && res.Plan.Class == "conc" {
 					return res.Extra["overlaps"] >= 1 && res.Extra["porcupine-ok"] == 1 && res.Extra["exec-answered"] >= 1
@@ -227,7 +227,7 @@ func init() {
 			}
 			return newSeqChecker(p)
 		},
-		rule: "2-4 connections (some opened late, some reconnecting) SELECT among databases 0,1,2,15 and invalid indexes, run data commands, transactions, FLUSHDB/FLUSHALL, DBSIZE, KEYS, CLIENT SETNAME/GETNAME, taking turns as the tape decides; after each command the reply and the stored state of all 16 databases are compared with the model; at the end every connection writes a marker into its selected database and an observer reads every database; non-trivial = a flush was issued while another connection had the flushed database selected, and at least 2 databases held keys; class twodb (1 of 5 runs): 3-4 connections work truly concurrently in database 0 and in one other database that does not exist yet (several of them SELECT it at the same moment), with transactions and FLUSHALL/FLUSHDB in between, checked for linearizability incl. a read-back of both databases; non-trivial = overlapping commands and porcupine decided; distinct = distinct scheduler event sequence",
+		rule: "2-4 connections (some opened late, some reconnecting) SELECT among databases 0,1,2,15 and invalid indexes, run data commands, transactions, FLUSHDB/FLUSHALL, DBSIZE, KEYS, CLIENT SETNAME/GETNAME, taking turns as the tape decides; after each command the reply and the stored state of all 16 databases are compared with the model; at the end every connection writes a marker into its selected database and an observer reads every database; non-trivial = a flush was issued while another connection had the flushed database selected, and at least 2 databases held keys; class twodb (1 of 5 runs): 3-4 connections work truly concurrently in database 0 and in one other database that does not exist yet (several of them SELECT it at the same moment), with transactions and FLUSHALL/FLUSHDB in between, checked for linearizability incl. a read-back of both databases; non-trivial = overlapping commands and porcupine decided; distinct = distinct scheduler event sequence; variant latedb of class twodb (1 in 3): the other database does not exist at the start, one or two connections create it in mid-run (SELECT, write there, SELECT 0, write here) while the others issue FLUSHALL; FLUSHDB/FLUSHALL ASYNC|SYNC are issued too, and goroutines the emulator starts without announcing them are scheduled like the others (fault unannounced-goroutine-scheduled)",
 		nontrivial: func(res *RunResult) bool {
 			if res.Plan != nil && res.Plan.Class == "twodb" {
 				return res.Extra["overlaps"] >= 1 && res.Extra["porcupine-ok"] == 1
@@ -265,7 +265,7 @@ func init() {
 			"invoke = step at which the first request byte was handed to the transport (deliberately early), return = step at which the last reply byte was written",
 		},
 	})
-	seqRule := "one generated single-connection history per run, replies and full stored state compared with the reference model after every command; non-trivial = at least 10 commands were answered, keys of at least 2 types existed and at least one command met a key of another type or an expired-but-stored key; distinct = distinct (seed-independent) hash of the command-name sequence and scheduler event sequence"
+	seqRule := "one generated single-connection history per run, replies and full stored state compared with the reference model after every command; non-trivial = at least 10 commands were answered, keys of at least 2 types existed and at least one command met a key of another type or an expired-but-stored key; C06 and C07 histories include the bitmap commands (SETBIT, GETBIT, BITCOUNT, BITPOS, BITFIELD, BITFIELD_RO, BITOP), which are writes in place and modelled bit-exactly; distinct = distinct (seed-independent) hash of the command-name sequence and scheduler event sequence"
 	for _, id := range []string{"C02", "C03", "C04", "C05", "C06", "C07"} {
 		id := id
 		regProp(&propDef{
